@@ -1,2 +1,81 @@
-(* C26 — property theorems (being filled in). *)
-From HV Require Import Model.Workers.
+(* C26 — parallel verification jobs run every task and report the first failure.
+
+   Theorems over ALL traces of the labelled transition system Model/Workers.v (every interleaving of the
+   clients, the queue goroutine, the workers and Stop; any worker count, queue capacity, number of jobs and
+   tasks, any set of failing tasks [c_fail]); clients obey the API contracts A1-A3 encoded in the model's
+   [client_ok] / label guards.  [c_fixed c = true] is the code in /repo now (after fix commit 0eb992d).
+   The event log [log s] is newest first.  Proofs: Proofs/Workers_proofs.v. *)
+From Coq Require Import List NArith Bool Arith.
+Import ListNotations.
+From HV Require Import Model.Workers Proofs.Workers_proofs.
+
+(* a concrete run used for the non-vacuity examples: 2 workers, job 0 = tasks 0,1 (task 1 fails),
+   job 1 = task 2, then Stop *)
+Definition ex_c : cfg := mkC 2 4 (fun t => Nat.eqb t 1) true.
+Definition ex_tr : list label :=
+  [LNewJob; LGo 0; LGo 0; LDone 0; LNewJob; LGo 1; LDone 1;
+   LDRecv; LDCheck; LDTake; LHandoff 0; LDTake; LHandoff 1; LWCheck 0; LWCheck 1;
+   LWEnd 1 false; LWFinish 1; LWEnd 0 true; LWFinish 0; LDTake; LDComplete;
+   LDRecv; LDCheck; LDTake; LHandoff 1; LWCheck 1; LWEnd 1 true; LWFinish 1; LDTake; LDComplete;
+   LStopBegin; LStopClose; LDRecv; LDFin; LStopAck; LWStop 0; LWStop 1; LStopRet].
+Definition ex_s : state := match run_labels ex_c init ex_tr with Some s => s | None => init end.
+
+Example ex_accepted : option_map log (run_labels ex_c init ex_tr) =
+  Some [EvStopRet; EvStop; EvResult 1 RNil; EvEnd 2 true; EvBegin 2; EvResult 0 (RErr 1);
+        EvEnd 0 true; EvEnd 1 false; EvBegin 1; EvBegin 0; EvGo 1 2; EvNewJob 1; EvGo 0 1; EvGo 0 0; EvNewJob 0].
+Proof. vm_compute. reflexivity. Qed.
+
+Lemma ex_steps : steps ex_c init ex_tr ex_s.
+Proof.
+  apply run_labels_steps. unfold ex_s.
+  destruct (run_labels ex_c init ex_tr) eqn:E; [reflexivity|]. vm_compute in E. discriminate.
+Qed.
+
+(* ---- each task runs at most once ------------------------------------------------------------------ *)
+Theorem C26_task_at_most_once : forall c tr s t, c_fixed c = true -> steps c init tr s ->
+  nbegin t (log s) <= 1 /\
+  (forall l1 l2, log s = l1 ++ EvBegin t :: l2 -> ~ In (EvBegin t) l1 /\ ~ In (EvBegin t) l2) /\
+  (In (EvBegin t) (log s) -> exists j, In (EvGo j t) (log s)).
+Proof.
+  intros c tr s t Hf H. split; [eapply at_most_once; eauto|]. split.
+  - intros l1 l2. eapply at_most_once_split; eauto.
+  - eapply begin_after_go; eauto.
+Qed.
+Print Assumptions C26_task_at_most_once.
+
+Example C26_task_at_most_once_ex : nbegin 1 (log ex_s) = 1.
+Proof. vm_compute. reflexivity. Qed.
+
+(* ---- all tasks run if none fails ------------------------------------------------------------------ *)
+Theorem C26_all_run_if_none_fails : forall c tr s j r, c_fixed c = true -> steps c init tr s ->
+  In (EvResult j r) (log s) ->
+  (* a nil result: every task given to the job began, ended, and did not fail *)
+  (r = RNil -> forall t, In (EvGo j t) (log s) ->
+      In (EvBegin t) (log s) /\ In (EvEnd t true) (log s) /\ c_fail c t = false) /\
+  (* a completed job none of whose tasks fails reports nil and ran them all *)
+  (r <> RShutdown -> (forall t, In (EvGo j t) (log s) -> c_fail c t = false) ->
+      r = RNil /\ forall t, In (EvGo j t) (log s) -> In (EvBegin t) (log s) /\ In (EvEnd t true) (log s)).
+Proof.
+  intros c tr s j r Hf H Hr. split.
+  - intros ->. eapply all_run_if_nil; eauto.
+  - intros Hns Hnf. eapply all_run_if_none_fails; eauto.
+Qed.
+Print Assumptions C26_all_run_if_none_fails.
+
+Example C26_all_run_if_none_fails_ex :
+  In (EvResult 1 RNil) (log ex_s) /\ In (EvGo 1 2) (log ex_s) /\ In (EvBegin 2) (log ex_s).
+Proof. vm_compute. tauto. Qed.
+
+(* ---- error iff an executed task failed ------------------------------------------------------------ *)
+Theorem C26_error_iff : forall c tr s j r, c_fixed c = true -> steps c init tr s ->
+  In (EvResult j r) (log s) -> r <> RShutdown ->
+  ((exists t0, r = RErr t0) <->
+   (exists t, In (EvGo j t) (log s) /\ In (EvBegin t) (log s) /\ In (EvEnd t false) (log s))) /\
+  (forall t0, r = RErr t0 ->
+     In (EvGo j t0) (log s) /\ In (EvBegin t0) (log s) /\ In (EvEnd t0 false) (log s) /\ c_fail c t0 = true).
+Proof. exact error_iff. Qed.
+Print Assumptions C26_error_iff.
+
+Example C26_error_iff_ex :
+  In (EvResult 0 (RErr 1)) (log ex_s) /\ In (EvEnd 1 false) (log ex_s) /\ steps ex_c init ex_tr ex_s.
+Proof. split; [|split]; [vm_compute; tauto|vm_compute; tauto|exact ex_steps]. Qed.
